@@ -403,6 +403,16 @@ func (e *Env) eval(x Expr, hint types.Type) TV {
 			v := e.eval(n.X, hint)
 			v = e.coerce(v, hint)
 			return TV{term: vc.unop(token.XOR, v.term, v.typ), typ: v.typ}
+		case "*":
+			v := e.eval(n.X, nil)
+			if v.typ == nil {
+				e.fail("dereference of untyped value")
+			}
+			pt, ok := v.typ.Underlying().(*types.Pointer)
+			if !ok {
+				e.fail("dereference of non-pointer %s", v.typ)
+			}
+			return TV{term: fmt.Sprintf("(select %s %s)", e.st.get(vc.heapVar(pt.Elem())), v.term), typ: pt.Elem()}
 		}
 	case EBinary:
 		return e.evalBinary(n, hint)
@@ -1066,8 +1076,42 @@ func (e *Env) methodCall(recv TV, method string, args []Expr) TV {
 	}
 	// concrete method: small pure in-repo/stdlib accessors are evaluated by inlining their SSA
 	fn := vc.eng.lookupMethod(recv.typ, method)
+	if pt, ok := recv.typ.Underlying().(*types.Pointer); ok {
+		// prefer the value-receiver method of the pointee (the pointer method set only holds a wrapper)
+		ms := vc.eng.prog.MethodSets.MethodSet(pt.Elem())
+		for i := 0; i < ms.Len(); i++ {
+			if ms.At(i).Obj().Name() == method {
+				if f2 := vc.eng.prog.MethodValue(ms.At(i)); f2 != nil {
+					fn = f2
+				}
+			}
+		}
+	}
 	if fn == nil {
 		e.fail("no method %s on %s", method, recv.typ)
+	}
+	if fc := vc.eng.lookupExtern(canonFunc(fn), "extern"); fc != nil && fc.Pure {
+		sig := fn.Signature
+		fname := fmt.Sprintf("pure_%s_%d", sanitize(fc.Name), 0)
+		rt0 := sig.Recv().Type()
+		rterm := recv.term
+		sorts := []string{vc.sortOf(rt0)}
+		if pt, ok := recv.typ.Underlying().(*types.Pointer); ok && vc.sortOf(rt0) != "Int" {
+			// value-receiver method called through a pointer: load the object
+			rterm = fmt.Sprintf("(select %s %s)", e.st.get(vc.heapVar(pt.Elem())), recv.term)
+		} else if vc.sortOf(recv.typ) != vc.sortOf(rt0) {
+			e.fail("receiver of %s has type %s, want %s", method, recv.typ, rt0)
+		}
+		ts := []string{rterm}
+		for i, a := range args {
+			pt := sig.Params().At(i).Type()
+			v := e.coerce(e.eval(a, pt), pt)
+			sorts = append(sorts, vc.sortOf(pt))
+			ts = append(ts, v.term)
+		}
+		rt := sig.Results().At(0).Type()
+		vc.decl("f:"+fname, fmt.Sprintf("(declare-fun %s (%s) %s)", fname, strings.Join(sorts, " "), vc.sortOf(rt)))
+		return TV{term: fmt.Sprintf("(%s %s)", fname, strings.Join(ts, " ")), typ: rt}
 	}
 	if e.fr == nil {
 		e.fail("method call %s outside a function context", method)
